@@ -227,7 +227,7 @@ def blank_out():
     return {"raised": False, "exc": "", "malformed": False, "exact": True, "dense": {"shape": [0], "q": [], "fin": False},
             "cn": [], "cnfin": False, "wmin": 0, "summ": [], "sfin": False, "parts": {"hasw": False, "w": [], "fs": []},
             "perm": [], "orth": 0, "orthfin": False, "nproj": 0, "recon": [], "slices": [],
-            "dense_im": {"shape": [0], "q": [], "fin": False}, "dtype": "", "steps": [], "recon_hi": [], "slices_lo": [], "pdtypes": []}
+            "dense_im": {"shape": [0], "q": [], "fin": False}, "dtype": "", "steps": [], "recon_hi": [], "slices_lo": [], "pdtypes": [], "accepted": False, "nfac": 0, "objshape": []}
 
 
 def _dense(out, kind, parts, mult=1.0):
@@ -406,6 +406,36 @@ def _execute(c, inp):
             else:
                 _dense(out, k, (a, fs), mult)
                 out["dtype"] = str(np.result_type(*([np.asarray(a)] if a is not None else []), *[np.asarray(f) for f in fs]))
+        elif op == "refused":
+            k = c["kind"]
+            ft = lf.fresh(k, inp)
+            cls = cp_tensor.CPTensor if k == "cp" else tucker_tensor.TuckerTensor
+            fn = cp_tensor.cp_mode_dot if k == "cp" else tucker_tensor.tucker_mode_dot
+            name = "cp_mode_dot" if k == "cp" else "tucker_mode_dot"
+            I = c["shape"][c["mode"]]
+            bad = np.ones((2, I + 2)) if c["operand"] == "matrix" else np.ones(I + 2)       # does not fit the mode
+            target = ft if c["how"] == "tuple" else cls(ft)
+            kw = {"matrix_or_vector": bad, "mode": c["mode"], "keep_dim": c["keep"]}
+            if c["copyopt"] != "default":                       # "default": the copy argument is not passed at all
+                kw["copy"] = c["copyopt"] == "true"
+            try:
+                if c["how"] == "method":
+                    first = kw.pop("matrix_or_vector")
+                    CALL(target.mode_dot, cls.__name__ + ".mode_dot", first, **kw)
+                else:
+                    CALL(fn, name, target, **kw)
+                out["accepted"] = True
+                out["exc"] = "the misfit operand was accepted"
+            except Exception:
+                out["accepted"] = False
+            # what the caller still holds
+            a, fs = target
+            out["nfac"] = len(fs)
+            out["objshape"] = [int(x) for x in target.shape] if c["how"] != "tuple" else []
+            if k == "cp" and not _cp_ok(a, fs):
+                out["malformed"] = True
+            else:
+                _dense(out, k, (a, fs))
         elif op == "sequence":
             obj = cp_tensor.CPTensor(lf.fresh("cp", inp))
             steps = []
